@@ -1,5 +1,6 @@
 import FordModel.CallsTable
 import FordModel.Spec.Calls
+import FordModel.Lemmas.CallsRegex
 namespace Ford.Calls
 open Ford Ford.CallsSpec
 
@@ -128,9 +129,9 @@ open Ford
 
 /-! ### the statement loop -/
 
-theorem step_calls (casc : List (String × String)) (intr : List Str) (s : St) (raw : Str) :
-    (step casc intr s raw).calls = s.calls ∨
-      ∃ asc line, (step casc intr s raw).calls = addProcedureCalls intr asc line s.calls := by
+theorem step_calls (gs : Rx.Guards) (casc : List (String × String)) (intr : List Str) (s : St) (raw : Str) :
+    (step gs casc intr s raw).calls = s.calls ∨
+      ∃ asc line, (step gs casc intr s raw).calls = addProcedureCalls intr asc line s.calls := by
   unfold step
   dsimp only
   repeat' split
@@ -142,26 +143,26 @@ theorem step_calls (casc : List (String × String)) (intr : List Str) (s : St) (
 def CallsInv (intr : List Str) (cs : List Chain) : Prop :=
   (cs.map lastOf).Nodup ∧ ∀ c ∈ cs, lastOf c ∉ intr
 
-theorem step_inv (casc : List (String × String)) (intr : List Str) (s : St) (raw : Str)
-    (h : CallsInv intr s.calls) : CallsInv intr (step casc intr s raw).calls := by
-  rcases step_calls casc intr s raw with e | ⟨asc, line, e⟩
+theorem step_inv (gs : Rx.Guards) (casc : List (String × String)) (intr : List Str) (s : St) (raw : Str)
+    (h : CallsInv intr s.calls) : CallsInv intr (step gs casc intr s raw).calls := by
+  rcases step_calls gs casc intr s raw with e | ⟨asc, line, e⟩
   · rw [e]; exact h
   · rw [e]
     exact ⟨addChains_lasts_nodup _ _ _ _ h.1, addChains_no_intr _ _ _ _ h.2⟩
 
-theorem foldl_step_inv (casc : List (String × String)) (intr : List Str) (lines : List Str) :
-    ∀ s : St, CallsInv intr s.calls → CallsInv intr (lines.foldl (step casc intr) s).calls := by
+theorem foldl_step_inv (gs : Rx.Guards) (casc : List (String × String)) (intr : List Str) (lines : List Str) :
+    ∀ s : St, CallsInv intr s.calls → CallsInv intr (lines.foldl (step gs casc intr) s).calls := by
   induction lines with
   | nil => intro s h; exact h
-  | cons l ls ih => intro s h; exact ih _ (step_inv casc intr s l h)
+  | cons l ls ih => intro s h; exact ih _ (step_inv gs casc intr s l h)
 
-theorem runUnit_inv (casc : List (String × String)) (intr : List Str) (lines : List Str) :
-    CallsInv intr (runUnit casc intr lines).calls :=
-  foldl_step_inv casc intr lines {} ⟨by simp, by simp⟩
+theorem runUnit_inv (gs : Rx.Guards) (casc : List (String × String)) (intr : List Str) (lines : List Str) :
+    CallsInv intr (runUnit gs casc intr lines).calls :=
+  foldl_step_inv gs casc intr lines {} ⟨by simp, by simp⟩
 
-theorem step_prefix (casc : List (String × String)) (intr : List Str) (s : St) (raw : Str) :
-    s.calls <+: (step casc intr s raw).calls := by
-  rcases step_calls casc intr s raw with e | ⟨asc, line, e⟩
+theorem step_prefix (gs : Rx.Guards) (casc : List (String × String)) (intr : List Str) (s : St) (raw : Str) :
+    s.calls <+: (step gs casc intr s raw).calls := by
+  rcases step_calls gs casc intr s raw with e | ⟨asc, line, e⟩
   · rw [e]; exact List.prefix_refl _
   · rw [e]; exact addChains_prefix _ _ _ _
 
@@ -173,9 +174,9 @@ theorem branchAct_ne_scan (name : String) (line : Str) (bl : Int)
   repeat' split
   all_goals simp_all
 
-theorem gate_not_scan (casc : List (String × String)) (name guard : String) (line : Str) (bl : Int)
-    (hp : precedesCall casc name guard = true) (ht : branchTakes name guard line bl = true) :
-    gate casc line bl ≠ .scan := by
+theorem gate_not_scan (gs : Rx.Guards) (casc : List (String × String)) (name guard : String) (line : Str) (bl : Int)
+    (hp : precedesCall casc name guard = true) (ht : branchTakes gs name guard line bl = true) :
+    gate gs casc line bl ≠ .scan := by
   induction casc with
   | nil => simp [precedesCall] at hp
   | cons e rest ih =>
@@ -192,9 +193,156 @@ theorem gate_not_scan (casc : List (String × String)) (name guard : String) (li
         simp [ht]
         exact branchAct_ne_scan _ _ _ hne
       · simp only [hm] at hp
-        by_cases htk : branchTakes n g line bl = true
+        by_cases htk : branchTakes gs n g line bl = true
         · simp [htk]; exact branchAct_ne_scan _ _ _ hne
         · simp [htk]; exact ih (by simpa using hp)
+
+/-- a branch other than the CALL and ASSOCIATE branches neither scans nor opens an association -/
+theorem branchAct_quiet (name : String) (line : Str) (bl : Int)
+    (h1 : name ≠ "CALL_RE|SUBCALL_RE") (h2 : name ≠ "ASSOCIATE_RE") :
+    branchAct name line bl ≠ .scan ∧ ∀ items, branchAct name line bl ≠ .assoc items := by
+  unfold branchAct
+  refine ⟨?_, ?_⟩
+  · repeat' split
+    all_goals simp_all
+  · intro items
+    repeat' split
+    all_goals simp_all
+
+/-- the statement is decided by a branch listed before all of `stops` when such a branch takes it -/
+theorem gate_of_precedes (gs : Rx.Guards) (stops : List String) (casc : List (String × String))
+    (name guard : String) (line : Str) (bl : Int)
+    (hp : precedesAll stops casc name guard = true) (ht : branchTakes gs name guard line bl = true) :
+    ∃ n, n ∉ stops ∧ gate gs casc line bl = branchAct n line bl := by
+  induction casc with
+  | nil => simp [precedesAll] at hp
+  | cons e rest ih =>
+    obtain ⟨n, g⟩ := e
+    have hp' : n ∉ stops ∧ ((n = name ∧ g = guard) ∨ precedesAll stops rest name guard = true) := by
+      simpa [precedesAll] using hp
+    obtain ⟨hne, hor⟩ := hp'
+    simp only [gate]
+    by_cases htk : branchTakes gs n g line bl = true
+    · simp only [htk, if_true]
+      exact ⟨n, hne, rfl⟩
+    · simp only [htk]
+      rcases hor with ⟨rfl, rfl⟩ | hr
+      · exact absurd ht htk
+      · exact ih hr
+
+/-- only the ASSOCIATE branch opens an association, and only on a line `ASSOCIATE_RE` matches -/
+theorem gate_assoc (gs : Rx.Guards) (casc : List (String × String)) (line : Str) (bl : Int) (items : Str)
+    (h : gate gs casc line bl = .assoc items) : associateRe line = some items := by
+  induction casc with
+  | nil => simp [gate] at h
+  | cons e rest ih =>
+    obtain ⟨n, g⟩ := e
+    simp only [gate] at h
+    by_cases htk : branchTakes gs n g line bl = true
+    · simp only [htk, if_true] at h
+      unfold branchAct at h
+      repeat' split at h
+      all_goals simp_all
+    · simp only [htk] at h
+      exact ih (by simpa using h)
+
+/-- a statement whose branch neither scans nor opens an association leaves the recorded list alone -/
+theorem step_calls_eq (gs : Rx.Guards) (casc : List (String × String)) (intr : List Str) (s : St) (raw : Str)
+    (h1 : gate gs casc (maskQuotes raw) s.bl ≠ .scan)
+    (h2 : ∀ items, gate gs casc (maskQuotes raw) s.bl ≠ .assoc items) :
+    (step gs casc intr s raw).calls = s.calls := by
+  unfold step
+  dsimp only
+  split
+  · rfl
+  split
+  · rfl
+  cases hg : gate gs casc (maskQuotes raw) s.bl with
+  | scan => exact absurd hg h1
+  | assoc items => exact absurd hg (h2 items)
+  | endAssoc => cases s.assocs <;> rfl
+  | _ => rfl
+
+/-! ### the generated guards -/
+
+theorem lower_eq_two {s : Str} {a b : Char} (h : lower s = [a, b]) :
+    ∃ x y, s = [x, y] ∧ lowerChar x = a ∧ lowerChar y = b := by
+  rcases s with _ | ⟨x, _ | ⟨y, _ | ⟨z, s⟩⟩⟩ <;> simp [lower] at h
+  exact ⟨x, y, rfl, h.1, h.2⟩
+
+theorem lower_eq_six {s : Str} {a b c d e f : Char} (h : lower s = [a, b, c, d, e, f]) :
+    ∃ x1 x2 x3 x4 x5 x6, s = [x1, x2, x3, x4, x5, x6] ∧ lowerChar x1 = a ∧ lowerChar x2 = b ∧
+      lowerChar x3 = c ∧ lowerChar x4 = d ∧ lowerChar x5 = e ∧ lowerChar x6 = f := by
+  rcases s with _ | ⟨x1, _ | ⟨x2, _ | ⟨x3, _ | ⟨x4, _ | ⟨x5, _ | ⟨x6, _ | ⟨z, s⟩⟩⟩⟩⟩⟩⟩ <;> simp [lower] at h
+  exact ⟨x1, x2, x3, x4, x5, x6, rfl, h.1, h.2.1, h.2.2.1, h.2.2.2.1, h.2.2.2.2.1, h.2.2.2.2.2⟩
+
+/-- the shape of a FORMAT statement: label, blanks, `format` (any case), blanks, `(` items `)`,
+    anything -/
+theorem formatGuard_takes (lab ws1 kw ws2 items rest : Str)
+    (hlab : lab ≠ []) (hd : ∀ c ∈ lab, isDigit c = true)
+    (h1 : ws1 ≠ []) (hw1 : ∀ c ∈ ws1, isSpace c = true)
+    (hkw : lower kw = ['f', 'o', 'r', 'm', 'a', 't'])
+    (h2 : ws2 ≠ []) (hw2 : ∀ c ∈ ws2, isSpace c = true)
+    (hit : ∀ c ∈ items, c ≠ '\n') :
+    Rx.guardTest Generated.C08.guards "FORMAT_RE"
+      (lab ++ (ws1 ++ (kw ++ (ws2 ++ '(' :: (items ++ ')' :: rest))))) = true := by
+  obtain ⟨k1, k2, k3, k4, k5, k6, rfl, e1, e2, e3, e4, e5, e6⟩ := lower_eq_six hkw
+  have hdig : ∀ c ∈ lab, Rx.setHas true false [.range '0' '9'] c = true := by
+    intro c hc
+    have := hd c hc
+    simp [isDigit] at this
+    simp [Rx.setHas, Rx.Item.has, this]
+  simp only [Rx.guardTest, Generated.C08.guards, Rx.Pattern.test]
+  simp (config := { decide := true }) only [if_true, if_false]
+  refine Rx.matchAt_of_mem (t := rest) _ ?_
+  simp only [Generated.C08.rxFORMAT_RE]
+  refine Rx.mem_run_seq (Rx.mem_run_bol rfl) ?_
+  refine Rx.mem_seq_plus_set lab hlab hdig ?_
+  refine Rx.mem_seq_plus_set ws1 h1 (fun c hc => Rx.setHas_space (hw1 c hc)) ?_
+  refine Rx.mem_seq_set (Rx.setHas_chr_ci e1) ?_
+  refine Rx.mem_seq_set (Rx.setHas_chr_ci e2) ?_
+  refine Rx.mem_seq_set (Rx.setHas_chr_ci e3) ?_
+  refine Rx.mem_seq_set (Rx.setHas_chr_ci e4) ?_
+  refine Rx.mem_seq_set (Rx.setHas_chr_ci e5) ?_
+  refine Rx.mem_seq_set (Rx.setHas_chr_ci e6) ?_
+  -- `\s+` (as in the source) or `\s*` (candidate repair fixes/C08-format-without-blank.diff)
+  first
+    | refine Rx.mem_seq_plus_set ws2 h2 (fun c hc => Rx.setHas_space (hw2 c hc)) ?_
+    | refine Rx.mem_seq_star_set ws2 (fun c hc => Rx.setHas_space (hw2 c hc)) ?_
+  refine Rx.mem_seq_set Rx.setHas_chr ?_
+  refine Rx.mem_seq_star_set items (fun c hc => Rx.setHas_notnl (hit c hc)) ?_
+  exact Rx.mem_run_set Rx.setHas_chr
+
+/-- the shape of a computed GO TO **anywhere** in a statement: anything, `go`, blanks, `to`,
+    blanks, `(` labels `)`, anything -/
+theorem arithGotoGuard_takes (pre go ws1 to_ ws2 labels rest : Str)
+    (hgo : lower go = ['g', 'o']) (hw1 : ∀ c ∈ ws1, isSpace c = true)
+    (hto : lower to_ = ['t', 'o']) (hw2 : ∀ c ∈ ws2, isSpace c = true)
+    (hne : labels ≠ []) (hl : ∀ c ∈ labels, isDigit c = true ∨ c = ',' ∨ isSpace c = true) :
+    Rx.guardTest Generated.C08.guards "ARITH_GOTO_RE"
+      (pre ++ (go ++ (ws1 ++ (to_ ++ (ws2 ++ '(' :: (labels ++ ')' :: rest)))))) = true := by
+  obtain ⟨g, o, rfl, e1, e2⟩ := lower_eq_two hgo
+  obtain ⟨t, o', rfl, e3, e4⟩ := lower_eq_two hto
+  have hlab : ∀ c ∈ labels, Rx.setHas true false [.range '0' '9', .chr ',', .space] c = true := by
+    intro c hc
+    rcases hl c hc with h | h | h
+    · simp [isDigit] at h
+      simp [Rx.setHas, Rx.Item.has, h]
+    · simp [Rx.setHas, Rx.Item.has, h]
+    · simp [Rx.setHas, Rx.Item.has, h]
+  simp only [Rx.guardTest, Generated.C08.guards, Rx.Pattern.test]
+  simp (config := { decide := true }) only [if_true, if_false]
+  refine Rx.searchFrom_append _ pre _ (Rx.matchAt_of_mem (t := rest) _ ?_)
+  simp only [Generated.C08.rxARITH_GOTO_RE]
+  refine Rx.mem_seq_set (Rx.setHas_chr_ci e1) ?_
+  refine Rx.mem_seq_set (Rx.setHas_chr_ci e2) ?_
+  refine Rx.mem_seq_star_set ws1 (fun c hc => Rx.setHas_space (hw1 c hc)) ?_
+  refine Rx.mem_seq_set (Rx.setHas_chr_ci e3) ?_
+  refine Rx.mem_seq_set (Rx.setHas_chr_ci e4) ?_
+  refine Rx.mem_seq_star_set ws2 (fun c hc => Rx.setHas_space (hw2 c hc)) ?_
+  refine Rx.mem_seq_set Rx.setHas_chr ?_
+  refine Rx.mem_seq_plus_set labels hne hlab ?_
+  exact Rx.mem_run_set Rx.setHas_chr
 
 end Ford.Calls
 
